@@ -4,5 +4,25 @@
 EXTENDS Integers, Sequences, TLC, Json
 CONSTANTS NPrograms, NPositions
 MutOps == {"delete", "duplicate", "swap", "indent", "dedent", "unbalance", "keyword", "truncate", "stray", "retype"}
+\* annotations whose number of type arguments does not fit the constructor (they parse; the stages after the
+\* parser meet them): constructor x number of arguments x trailing comma x where the annotation stands
+RECURSIVE Rep(_, _)
+Rep(x, n) == IF n = 0 THEN <<>> ELSE <<x>> \o Rep(x, n - 1)
+RECURSIVE Join(_, _)
+Join(xs, sep) == IF xs = <<>> THEN "" ELSE IF Len(xs) = 1 THEN xs[1] ELSE xs[1] \o sep \o Join(Tail(xs), sep)
+Ctors == {"list", "dict", "tuple", "type", "int", "Callable"}
+Fits(c, n) == (c = "list" /\ n = 1) \/ (c = "dict" /\ n = 2) \/ (c = "tuple" /\ n >= 1) \/ (c = "type" /\ n = 1) \/ (c = "int" /\ n = 0)
+Ann(c, n, comma, arg) == IF n = 0 THEN c ELSE c \o "[" \o Join(Rep(arg, n), ", ") \o (IF comma THEN ", " ELSE "") \o "]"
+Places == {"var", "param", "return", "base", "inner", "alias"}
+AnnProgram(place, a) ==
+  CASE place = "var" -> "x: " \o a \o " = v()\n"
+    [] place = "param" -> "def f(p: " \o a \o ") -> None:\n\tpass\n"
+    [] place = "return" -> "def f() -> " \o a \o ":\n\tpass\n"
+    [] place = "base" -> "class A(" \o a \o "):\n\tpass\n"
+    [] place = "inner" -> "x: list[" \o a \o "] = []\n"
+    [] place = "alias" -> "from typing import TypeAlias\n\nT: TypeAlias = " \o a \o "\n"
+ASSUME \A c \in Ctors, n \in 0..3, comma \in BOOLEAN, arg \in {"int", "str"}, place \in Places :
+   (~Fits(c, n) /\ (comma => n > 0)) =>
+     PrintT("ANN " \o ToJson([ctor |-> c, n |-> n, place |-> place, text |-> "def v() -> int:\n\treturn 1\n\n" \o AnnProgram(place, Ann(c, n, comma, arg))]))
 ASSUME \A p \in 1..NPrograms, o \in MutOps, k \in 1..NPositions : PrintT("MUT " \o ToJson([program |-> p, op |-> o, pos |-> k]))
 =============================================================================
